@@ -90,45 +90,38 @@ Section Guards.
     | _ :: r => atoms_of r
     end.
 
-  (* G2: blank-chain lettering is inert: no TER record, or every coordinate
-     record has a chain identifier or is a water *)
+  (* G2 (design guard): blank-chain lettering is inert: no TER record, or every
+     coordinate record has a chain identifier or is a water.  (With TER records a
+     blank chain id denotes the chain of its TER segment, which the raw-column
+     identity of [cols_read] cannot express.) *)
   Definition unlettered (a : atomrec) : bool :=
     negb (a_chain a =? "") || mem_str (a_resname a) ["WAT"; "HOH"].
 
   Definition inert (recs : list rec) : bool :=
     (count_ter recs =? 0)%nat || forallb unlettered (atoms_of recs).
 
-  (* G3: when the second MODEL record arrives, the pending residue is not
-     empty (the last ATOM/HETATM/END record in front of it is a coordinate
-     record).  [nm] = MODEL records so far, [pne] = pending residue non-empty *)
-  Fixpoint nm_ok (nm : nat) (pne : bool) (recs : list rec) : bool :=
-    match recs with
-    | [] => true
-    | RAtom _ :: r => nm_ok nm true r
-    | REnd :: r => nm_ok nm false r
-    | RModel :: r => if (1 <=? nm)%nat then pne else nm_ok (S nm) pne r
-    | RTer :: r => nm_ok nm pne r
-    end.
-
   (* the residue runs: maximal runs of consecutive coordinate records with the
-     same (resSeq, iCode, chain), also ended by END; reading stops at the
-     second MODEL record.  (Biomolecule.__init__ without its chain dictionary.) *)
+     same (resSeq, iCode, chain), also ended by END; a record whose identity is
+     in a closed run ([placed]) is skipped; reading stops at the second MODEL
+     record.  (Biomolecule.__init__ without its chain dictionary.) *)
   Definition cons_nel {A} (h : list A) (t : list (list A)) : list (list A) :=
     match h with [] => t | _ => h :: t end.
 
-  Fixpoint lsegs (nm : nat) (pend : list atomrec) (recs : list rec) : list (list atomrec) :=
+  Fixpoint lsegs (placed : list atomrec) (nm : nat) (pend : list atomrec) (recs : list rec)
+    : list (list atomrec) :=
     match recs with
     | [] => if negb (is_nil pend) && (nm <=? 1)%nat then [pend] else []
     | RAtom a :: r =>
+        if existsb (same_id a) placed then lsegs placed nm pend r
+        else
         match last_atom pend with
-        | Some p => if same_key a p then lsegs nm (pend ++ [a]) r else pend :: lsegs nm [a] r
-        | None => lsegs nm [a] r
+        | Some p => if same_key a p then lsegs placed nm (pend ++ [a]) r
+                    else pend :: lsegs (placed ++ pend) nm [a] r
+        | None => lsegs placed nm [a] r
         end
-    | REnd :: r => cons_nel pend (lsegs nm [] r)
-    | RModel :: r =>
-        if is_nil pend then lsegs (S nm) [] r
-        else if (1 <? S nm)%nat then [pend] else lsegs (S nm) pend r
-    | RTer :: r => lsegs nm pend r
+    | REnd :: r => cons_nel pend (lsegs (placed ++ pend) nm [] r)
+    | RModel :: r => if (1 <? S nm)%nat then cons_nel pend [] else lsegs placed (S nm) pend r
+    | RTer :: r => lsegs placed nm pend r
     end.
 
   Definition rident (a : atomrec) : ident :=
@@ -136,15 +129,7 @@ Section Guards.
 
   Definition same_ident (a b : atomrec) : bool := ident_eqb (rident a) (rident b).
 
-  (* G4: two records with the same identity never lie in different runs *)
-  Fixpoint runs_disjoint (segs : list (list atomrec)) : bool :=
-    match segs with
-    | [] => true
-    | s :: r =>
-        forallb (fun b => forallb (fun a => negb (same_ident b a)) s) (concat r) && runs_disjoint r
-    end.
-
-  (* G5: inside one run, the residue's alternative-name map does not send two
+  (* G5 (design guard): inside one run, the residue's alternative-name map does not send two
      different listed names to one name *)
   Definition run_rename (seg : list atomrec) (n : string) : string :=
     match last_atom seg with
@@ -165,20 +150,14 @@ Section Guards.
   Definition guard (lines : list string) : bool :=
     forallb g_line lines &&
     (let recs := flat_map line_recs lines in
-     inert recs && nm_ok 0 false recs &&
-     (let segs := lsegs 0 [] recs in runs_disjoint segs && forallb alias_ok segs)).
+     inert recs && forallb alias_ok (lsegs [] 0 [] recs)).
 
   (* guard of the "later models are ignored" theorem *)
   Definition guard_models (lines : list string) : bool :=
-    forallb g_line lines &&
-    (let recs := flat_map line_recs lines in inert recs && nm_ok 0 false recs).
+    forallb g_line lines && inert (flat_map line_recs lines).
 
-  (* guard of the drop-water theorem: record_type() of every coordinate record
-     is its record name (no serial fused to "HETATM") *)
+  (* record_type() of a coordinate record is its record name *)
   Definition tok0_ok (a : atomrec) : bool := mem_str (a_tok0 a) ["HETATM"; "ATOM"].
-
-  Definition guard_water (lines : list string) : bool :=
-    forallb g_line lines && forallb tok0_ok (atoms_of (flat_map line_recs lines)).
 
 End Guards.
 
